@@ -3,30 +3,30 @@ import Evenio.Driver.Parse
     other line is one operation), prints each operation followed by the model's observation lines. -/
 open Evenio
 
-partial def loop (h : IO.FS.Stream) (w : World) (debug : Bool) (dead : Bool) : IO Unit := do
+partial def loop (h : IO.FS.Stream) (w : World) (debug snap : Bool) (dead : Bool) : IO Unit := do
   let line ← h.getLine
   if line.isEmpty then return ()
   let line := line.trimAscii.toString
   if line.isEmpty || line.startsWith ">" || line.startsWith "#" then
-    loop h w debug dead
+    loop h w debug snap dead
   else if line.startsWith "===" then
     IO.println line
-    loop h { debug := debug } debug false
+    loop h { debug := debug } debug snap false
   else if dead then
-    loop h w debug dead
+    loop h w debug snap dead
   else
     IO.println line
     match Parse.parseOp line with
     | none =>
       IO.println "> bad-op"
-      loop h w debug dead
+      loop h w debug snap dead
     | some op =>
-      let (w', lines) := step w op
+      let (w', lines) := step w op snap
       for l in lines do IO.println ("> " ++ l)
       -- after a UB marker the model state is meaningless: stop this history (a failed debug assertion unwinds like a panic)
       let dead' := lines.any fun l => l.startsWith "ub "
-      loop h w' debug dead'
+      loop h w' debug snap dead'
 
 def main (args : List String) : IO Unit := do
   let debug := !(args.contains "--release")
-  loop (← IO.getStdin) { debug := debug } debug false
+  loop (← IO.getStdin) { debug := debug } debug (args.contains "--snap") false
